@@ -307,10 +307,21 @@ fn field_type(rng: &mut Rng, declared: &[Declared], self_name: Option<&str>, tag
     if roll < 3 && !declared.is_empty() {
         let d = rng.pick(declared);
         tags.push("nested_derived".into());
-        let src = match rng.below(4) {
+        // a derived type in every position a value can take (map keys apart: the declarations derive no Hash / Ord)
+        let src = match rng.below(16) {
             0 => format!("Vec<{}>", d.name),
             1 => format!("Option<{}>", d.name),
             2 => format!("Box<{}>", d.name),
+            3 => format!("Result<{}, String>", d.name),
+            4 => format!("Result<u8, {}>", d.name),
+            5 => format!("(u8, {}, String)", d.name),
+            6 => format!("[{}; 2]", d.name),
+            7 => format!("HashMap<String, {}>", d.name),
+            8 => format!("BTreeMap<u8, Vec<{}>>", d.name),
+            9 => format!("Rc<{}>", d.name), // (LinkedList<T> asks for T: Eq + Hash in the library)
+            10 => format!("Arc<{}>", d.name),
+            11 => format!("(bool, u16, char, i64, f32, String, Option<u8>, {})", d.name),
+            12 => format!("Option<Vec<Option<{}>>>", d.name),
             _ => d.name.clone(),
         };
         return (TE { src, key: false, zero: false }, false);
